@@ -138,7 +138,12 @@ class Extractor:
         for c in body['ch']:
             m = f.nodes[c]
             if m['k'] in ('CaseStmt', 'DefaultStmt'):
-                if cur is not None and cur[1] and not self.terminates(f, cur[1][-1]) and f.nodes[cur[1][-1]]['k'] != 'BreakStmt':
+                def ends_group(i):
+                    m_ = f.nodes[i]
+                    if m_['k'] == 'BreakStmt' or self.terminates(f, i):
+                        return True
+                    return m_['k'] == 'CompoundStmt' and bool(m_['ch']) and ends_group(m_['ch'][-1])
+                if cur is not None and cur[1] and not ends_group(cur[1][-1]):
                     return None      # fall-through out of a non-empty group
                 labels, first = open_labels(c, [])
                 if labels is None:
